@@ -4,7 +4,6 @@ package main
 
 import (
 	"fmt"
-	"go/ast"
 	"go/constant"
 	"go/token"
 	"go/types"
@@ -376,18 +375,41 @@ func (e *Engine) abandonPath(fr *Frame, st *State, instr ssa.Instruction, msg st
 	c := e.curContract
 	e.vc.note("path abandoned at " + e.posStr(instr.Pos()) + ": " + msg)
 	e.abandoned++
-	env := e.contractEnv(c, fr.fn, fr.params, fr.entry)
+	// The rest of the path is unknown: every postcondition must hold whatever the results
+	// and the final heap and ghost state are (only old(...) terms and the path condition
+	// carry information).
+	fin := st.clone()
+	names := make([]string, 0, len(e.vc.heapSort))
+	for name := range e.vc.heapSort {
+		names = append(names, name)
+	}
+	sortStrings(names)
+	for _, name := range names {
+		fin.heap[name] = e.vc.declare("HA_"+name, e.vc.heapSort[name])
+	}
+	var gs []string
+	for g := range fin.ghost {
+		gs = append(gs, g)
+	}
+	sortStrings(gs)
+	for _, g := range gs {
+		fin.ghost[g] = e.vc.declare("GA_"+g, e.ghostSort(g))
+	}
+	e.anyLoopSeen = true // maps first touched later must be part of this havoc: another pass
+	var rv SV
+	if rt := resultType(fr.fn.Signature); rt != nil {
+		rv = e.freshSV(rt, "r_abandoned", st.pc, fin)
+	}
+	env := e.contractEnv(c, fr.fn, fr.params, fin)
+	env = e.bindResults(env, c, fr.fn.Signature, rv)
+	env.cur = fin
 	env.old = fr.entry
 	for i, q := range c.Ensures {
 		goal := "false"
-		if ce, ok := q.Expr.(*ast.CallExpr); ok {
-			if id, ok := ce.Fun.(*ast.Ident); ok && id.Name == "implies" && len(ce.Args) == 2 {
-				if t, err := e.tryEvalBool(env, ce.Args[0]); err == nil {
-					goal = not(t)
-				}
-			}
+		if t, err := e.tryEvalBool(env, q.Expr); err == nil {
+			goal = t
 		}
-		ob := e.vc.oblige(fmt.Sprintf("post:%d/a%d", i+1, e.abandoned), st.pc, goal, "postcondition must be vacuous on the abandoned path ("+e.posStr(instr.Pos())+"): "+q.Text)
+		ob := e.vc.oblige(fmt.Sprintf("post:%d/a%d", i+1, e.abandoned), st.pc, goal, "postcondition must hold whatever the abandoned rest of the path does ("+e.posStr(instr.Pos())+"): "+q.Text)
 		ob.Props = q.Props
 	}
 	st.pc = "false"
